@@ -63,7 +63,7 @@ def run_tape(pid, tier, seed, mc_runs, scen, rule, assumptions, kinds, selftest)
                 continue
             d = m[3]
             key = f"{m[2]}:{d.get('why', '')}"
-            chk.classify(key, f"{m[2]}: {d}", run_of(trace, m[1]), extra=m)
+            chk.classify(key, f"{m[2]}: {d}", lambda m=m, trace=trace: run_of(trace, m[1]), extra=m)
     with open(first) as f:
         chk.sample([next(f).strip()[:300] for _ in range(4)])
     ok, n, rej = selftest(pid, first, seed)
